@@ -65,11 +65,18 @@ C.update({
 })
 C["C14"]["text"]+=" The exact equations xorb_bytes_uploaded = sum of put results and shard_bytes_uploaded = shard bytes handed over are decided by the injected driver (second command, evidence/C14x.json) over every completion order of the gated store calls."
 
+C.update({
+ "C19":dict(lab="lab_crash",cat="fault_enumeration",tech="exhaustive crash-point enumeration: libc interposition snapshots the tree before every mutating system call of the operation; every crash state is re-opened on a fresh copy by the real code",
+   text="Shard flush / write_to_directory / consolidation (3 thresholds, 2-4 inputs), LocalClient::put, DiskCache::put (plain, subsuming, evicting) and whole upload sessions, each after every prior history of depth 1 (quick) / 2-3 (thorough) incl. histories whose last step was itself interrupted: for every crash state every file under a final name is consistent with its name, everything retrievable before the operation is still retrievable through the re-opened code, re-running the operation succeeds with the same retrievable set. Interposer completeness is proved against strace (--selfcheck, part of thorough).",
+   note="Crash model = kill -9 between two system calls (completed calls persist, user-space buffers lost, no destructors); torn writes / fsync ordering / mmap stores out of scope. Trusted: vcore::vfs interposer (cross-checked with strace), reference shard model.", ref="4/C19"),
+})
+C["C11"]["text"]+=" Concurrent part (second command, evidence/C11c.json, hook H5 + E1): every schedule with <= 2 preemptions of 2-3 threads doing add_cas_block / add_file_reconstruction_info / flush / query on one real ShardFileManager with a tiny shard target; after the final flush every record whose add returned Ok must be in a shard file of the session."
+
 checks=[]
 for p in props:
     if p in C:
         c=C[p]
-        x2 = " && ./check C14x --tier {t}" if p=="C14" else ""
+        x2 = " && ./check C14x --tier {t}" if p=="C14" else (" && ./check C11c --tier {t}" if p=="C11" else "")
         checks.append({"property_id":p,"quick_cmd":f"./check {p} --tier quick"+x2.format(t="quick"),"thorough_cmd":f"./check {p} --tier thorough"+x2.format(t="thorough"),
           "evidence_file":f"/verif/evidence/{p}.json","replay_cmd_template":f"./check {p} --replay {{path}}","engine":c["lab"],
           "level_claimed":{"category":c["cat"],"text":c["text"],"design_ref":"DESIGN.md section "+c["ref"]},
@@ -79,7 +86,7 @@ m={"version":1,"setup_cmd":"./check --setup",
  "hooks":{"guard":"cargo feature `verif` (on utils, chunk_cache, cas_client, data; new inert crate verif_hooks)",
   "enable":"the harness crates under /verif/harness are cargo path-dependents of /repo/<crate> with features=[\"verif\"]; every ./check run does an incremental cargo build --offline first",
   "baseline_off_cmd":"cd /repo && cargo nextest run --workspace --no-fail-fast --offline",
-  "source_commits":["f198c7b","5a597fe","61cee61","49b5b9d","fbaea1e","06d5c26"],"add_only":True},
+  "source_commits":["f198c7b","5a597fe","61cee61","49b5b9d","fbaea1e","06d5c26","10e9a05"],"add_only":True},
  "engines":[
   {"name":"E1 vsched","path":"harness/vcore/src/sched.rs","serves_properties":["C12","C13","C20","C16"],"kind_free_text":"cooperative scheduler over real OS threads + stateless preemption-bounded DFS, replay-checked"},
   {"name":"E2 vfs","path":"harness/vcore/src/vfs.rs","serves_properties":["C12","C13","C18","C19"],"kind_free_text":"libc symbol interposition: FS switch points, crash snapshots, fake clock"},
